@@ -33,6 +33,9 @@ func (b *Body) textProvenance(l *Ledger) {
 				if !ok || !isByteElemSlice(ia.X.Type()) {
 					return
 				}
+				if _, isConst := x.Val.(*ssa.Const); isConst {
+					return // punctuation written by hand ('{', ',', ':'): structure, not a value's text
+				}
 				sites = append(sites, "byte store "+b.posOf(x))
 			case *ssa.Call:
 				bi, ok := x.Call.Value.(*ssa.Builtin)
@@ -44,7 +47,22 @@ func (b *Body) textProvenance(l *Ledger) {
 				if sl, ok := x.Call.Args[1].(*ssa.Slice); ok {
 					if al, ok := sl.X.(*ssa.Alloc); ok {
 						if _, isArr := derefPtr(al.Type()).Underlying().(*types.Array); isArr {
-							sites = append(sites, "append of single bytes "+b.posOf(x))
+							// constant bytes are punctuation written by hand, not a value's text
+							allConst := true
+							for _, r := range *al.Referrers() {
+								if ia, ok := r.(*ssa.IndexAddr); ok {
+									for _, r2 := range *ia.Referrers() {
+										if st, ok := r2.(*ssa.Store); ok {
+											if _, isC := st.Val.(*ssa.Const); !isC {
+												allConst = false
+											}
+										}
+									}
+								}
+							}
+							if !allConst {
+								sites = append(sites, "append of single bytes "+b.posOf(x))
+							}
 						}
 					}
 				}
